@@ -800,7 +800,6 @@ func stableFieldLoad(ld *ssa.UnOp) (string, bool) {
 	return fmt.Sprintf("stable(%s@%p%s)", par.Name(), par, key), true
 }
 
-
 // nonNilByConstruction: calls that never return nil.
 func nonNilByConstruction(v ssa.Value) bool {
 	for i := 0; i < 4; i++ {
